@@ -270,6 +270,12 @@ class Harness:
             self.crashes.append({"gomaxprocs": g, "profile": profile, "rc": rc,
                                  "bursts_completed": len(recs), "output": out[-3000:]})
         if os.path.exists(logf):
+            if rc != 0:
+                # keep only the complete receiver blocks of a log cut short
+                data = open(logf, "rb").read()
+                cut = data.rfind(b"\n.\n")
+                with open(logf, "wb") as f:
+                    f.write(data[:cut + 3] if cut >= 0 else b"")
             rej, logs, msgs = run_monitor(self.mon, logf)
             self.logs += logs
             self.msgs += msgs
